@@ -14,6 +14,8 @@ RULE = (
     "property reads between operations. After every operation the full observable snapshots (scalars and every history series of every node) must be bit-identical, a property read on "
     "the stale tree A must equal the same read on B after an explicit update, all rows of earlier dates must never change once the clock has moved, and no series accessor may extend "
     "beyond the current date. noisy_backtest: a grammar backtest run twice, once with a noise algo (redundant updates + reads) inserted at generated stack positions: histories bit-identical. "
+    "fi_twin: two fixed-income trees (all security kinds, coupons, spreads, commissions, optionally nested) execute the same notional transactions / closes / adjustments / date changes, one of "
+    "them with redundant updates and reads at generated places, the other refreshed only when the clock moves; the observable state must agree at every date boundary (1e-12 relative). "
     "frozen: histories whose operations are issued in deferred form (update=False, update_self=False) with generated placements of the closing update, including none before the clock "
     "moves (outside the lazy-update protocol; only the append-only clause is judged there): the rows of earlier dates, read from the arrays behind the series so that looking refreshes nothing, "
     "must still be what they were when the clock moved past them. "
@@ -405,11 +407,169 @@ def frozen_spec(draw):
     return spec
 
 
-SUBS = {"twin": case_twin, "noisy_backtest": case_noisy_backtest, "frozen": case_frozen}
-STRATS = {"twin": twin_spec, "noisy_backtest": noisy_spec, "frozen": frozen_spec}
+# ---- fixed-income twins ---------------------------------------------------------------------------
+FI_KINDS = ["FixedIncomeSecurity", "CouponPayingSecurity", "CouponPayingSecurity", "HedgeSecurity", "Security"]
+
+
+@st.composite
+def fi_twin_spec(draw):
+    ds = draw(gen.dates(2, 6, kinds=("bday", "daily")))
+    n = len(ds)
+    nt = draw(st.integers(1, 3))
+    tickers = gen.TICKERS[:nt]
+    pr = {t: draw(gen.price_path(n, vol=0.01, p0=draw(st.sampled_from([100.0, 99.5, 101.25])), decimals=4)) for t in tickers}
+    kinds = {t: draw(st.sampled_from(FI_KINDS)) for t in tickers}
+    coup = {t: [draw(st.sampled_from([0.0, 0.01, 0.025])) for _ in range(n)] for t in tickers}
+    ops = []
+    for _ in range(draw(st.integers(3, 14))):
+        k = draw(st.sampled_from(["transact", "transact", "transact", "close", "next", "adjust"]))
+        if k == "transact":
+            ops.append([k, draw(st.sampled_from(tickers)), draw(st.sampled_from([1000.0, -1000.0, 500.0, -250.0, 2000.0, -2000.0]))])
+        elif k == "close":
+            ops.append([k, draw(st.sampled_from(tickers))])
+        elif k == "adjust":
+            ops.append([k, draw(st.sampled_from([500.0, -200.0])), draw(st.integers(0, 4)) != 0])
+        else:
+            ops.append([k])
+    noise = [[draw(st.integers(0, len(ops) - 1)), draw(st.sampled_from(["update", "update2", "value", "price", "notional_value", "prices"]))] for _ in range(draw(st.integers(1, 6)))]
+    return {
+        "dates": ds,
+        "prices": pr,
+        "kinds": kinds,
+        "coupons": coup,
+        "ops": ops,
+        "noise": noise,
+        "spread": draw(st.sampled_from([None, 0.02, 0.1])),
+        "fee": draw(gen.fee_spec(0.5, kinds=("none", "fixed", "prop"))),
+        "integer": draw(st.booleans()),
+        "nested": draw(st.integers(0, 3)) == 0,
+    }
+
+
+def _fi_tree(bt, spec):
+    import pandas as pd
+
+    data = interp.mk_frame(spec["dates"], spec["prices"])
+    kids = [getattr(bt.core, spec["kinds"][t])(t) for t in sorted(spec["prices"])]
+    if spec["nested"]:
+        root = bt.core.FixedIncomeStrategy("root", children=[bt.core.FixedIncomeStrategy("sub", children=kids)])
+    else:
+        root = bt.core.FixedIncomeStrategy("root", children=kids)
+    kw = {"coupons": interp.mk_frame(spec["dates"], spec["coupons"])}
+    if spec["spread"] is not None:
+        kw["bidoffer"] = data * 0.0 + spec["spread"]
+    root.setup(data, **kw)
+    root.use_integer_positions(bool(spec["integer"]))
+    if spec["fee"]["kind"] != "none":
+        root.set_commissions(interp.Fee(spec["fee"]))
+    root.update(data.index[0])
+    return root, data.index
+
+
+def _fi_snapshot(bt, root, now):
+    out = {}
+    for m in root.members:
+        d = {"value": float(m.value), "price": float(m.price), "notional_value": float(m.notional_value), "weight": float(m.weight)}
+        names = ["prices", "values", "notional_values"] + (["cash", "fees", "flows"] if isinstance(m, bt.core.StrategyBase) else ["positions", "outlays"])
+        if isinstance(m, bt.core.CouponPayingSecurity):
+            names += ["coupons", "holding_costs"]
+        if m._bidoffer_set:
+            names.append("bidoffers_paid")
+        for nm in names:
+            ser = getattr(m, nm)
+            if len(ser.index) and ser.index.max() > now:
+                raise Violation("%s.%s extends beyond the current date %s" % (m.full_name, nm, now), signature="fi-beyond-now:" + nm)
+            d[nm] = [float(x) for x in np.asarray(ser.loc[:now], dtype=float)]
+        out[m.full_name] = d
+    return out
+
+
+def _fi_diff(a, b, tol=1e-12):
+    for k in a:
+        for f in a[k]:
+            x, y = a[k][f], b[k][f]
+            xs, ys = (x, y) if isinstance(x, list) else ([x], [y])
+            if len(xs) != len(ys):
+                return "%s.%s: %d rows vs %d" % (k, f, len(xs), len(ys))
+            for i, (p_, q_) in enumerate(zip(xs, ys)):
+                if (p_ != p_) != (q_ != q_) or (p_ == p_ and abs(p_ - q_) > tol * max(1.0, abs(p_), abs(q_))):
+                    return "%s.%s row %d: %r vs %r" % (k, f, i, p_, q_)
+    return None
+
+
+def case_fi_twin(ctx, spec):
+    """Two identical fixed-income trees execute the same operations (notional transactions, closes, adjustments, date changes); tree B
+    additionally receives redundant updates and property reads at generated places, tree A is refreshed only when the clock is about
+    to move.  At every date boundary and at the end the observable state must agree (1e-12 relative: re-summing the carry may move
+    the last bit)."""
+    bt = ctx.bt
+    try:
+        A, idx = _fi_tree(bt, spec)
+        B, _ = _fi_tree(bt, spec)
+    except Exception as e:
+        raise Discard("setup raised %s" % type(e).__name__)
+    noise = {}
+    for pos, what in spec["noise"]:
+        noise.setdefault(pos, []).append(what)
+    i = 0
+    effective = 0
+    mutated = False
+    labs = set(spec["kinds"].values())
+
+    def compare(tag):
+        A.update(idx[i])
+        B.update(idx[i])
+        d = _fi_diff(_fi_snapshot(bt, A, idx[i]), _fi_snapshot(bt, B, idx[i]))
+        if d:
+            raise Violation("%s: redundant updates / reads changed the observable state of a fixed-income tree: %s" % (tag, d), signature="fi-not-idempotent:" + d.split(":")[0].split(".")[-1].split(" ")[0])
+
+    try:
+        for k, op in enumerate(spec["ops"]):
+            tag = "op#%d %s" % (k, op)
+            if op[0] == "next":
+                if i + 1 >= len(idx):
+                    continue
+                compare(tag)
+                i += 1
+                A.update(idx[i])
+                B.update(idx[i])
+                mutated = False
+            else:
+                for T in (A, B):
+                    holder = T["sub"] if spec["nested"] else T
+                    if op[0] == "transact":
+                        holder.transact(op[2], child=op[1])
+                    elif op[0] == "close":
+                        holder.close(op[1])
+                    else:
+                        T.adjust(op[1], flow=op[2])
+                mutated = True
+            for what in noise.get(k, []):
+                if what == "update":
+                    B.update(idx[i])
+                elif what == "update2":
+                    B.update(idx[i])
+                    B.update(idx[i])
+                else:
+                    getattr(B, what)
+                if mutated:
+                    effective += 1
+        compare("end")
+    except ZeroDivisionError:
+        raise Discard("pnl on zero notional (ill-formed, C10)")
+    except (Violation, Discard):
+        raise
+    except Exception as e:
+        raise Discard("history raised %s (C10's business)" % type(e).__name__)
+    return {"nontrivial": effective > 0, "labels": sorted(labs) + (["nested"] if spec["nested"] else [])}
+
+
+SUBS = {"twin": case_twin, "noisy_backtest": case_noisy_backtest, "frozen": case_frozen, "fi_twin": case_fi_twin}
+STRATS = {"twin": twin_spec, "noisy_backtest": noisy_spec, "frozen": frozen_spec, "fi_twin": fi_twin_spec}
 
 
 def shard(ctx):
     run_sub(ctx, "twin", twin_spec(), lambda s: case_twin(ctx, s), ctx.n(1200, 25000))
     run_sub(ctx, "noisy_backtest", noisy_spec(), lambda s: case_noisy_backtest(ctx, s), ctx.n(320, 6000))
     run_sub(ctx, "frozen", frozen_spec(), lambda s: case_frozen(ctx, s), ctx.n(1200, 25000))
+    run_sub(ctx, "fi_twin", fi_twin_spec(), lambda s: case_fi_twin(ctx, s), ctx.n(1600, 30000))
